@@ -201,7 +201,8 @@ impl Check for C12 {
                 Ok(Out::Hit { data, .. }) if parse_value(data) == Some(("thekey".to_string(), 2)) => {}
                 _ => fail(&mut out, "not-found", format!("n={} process {} ({:?}) did not find the entry written by A (landed {:?}): {}", n, p, spec, landed, r.short())),
             }
-            let opens: Vec<String> = w.trace_from(m).iter().filter(|r| r.kind == K::Open).map(|r| r.raw.clone()).collect();
+            // whatever call the lookup probes with (open today; a stat would do)
+            let opens: Vec<String> = w.trace_from(m).iter().filter(|r| matches!(r.kind, K::Open | K::Stat | K::Lstat | K::Utimens) && r.raw.ends_with("/thekey")).map(|r| r.raw.clone()).collect();
             if opens.first() != Some(&p1) {
                 fail(&mut out, "probe-order", format!("n={} process {} probed {:?}; the primary candidate {} must come first", n, p, opens, p1));
             }
